@@ -213,3 +213,29 @@ Example C13_failures_nonvacuous :
   (Forall dmg_ok ex_damaged /\
    parse_csv (render_damaged ex_damaged) = [(18997, Qcfrac 12345 10000); (19001, Qcfrac 12377 10000)]).
 Proof. split; [exact RatesFailProps.cache_failures_example | exact RatesFailProps.damaged_example]. Qed.
+
+(* The failure-path machine generalises the machine of the theorems above:
+   with the environment in which no operation fails ([no_fail e]: every read
+   undisturbed, every write and request succeeding) and no damage,
+   [historyF] and [history true] have the same outcome, the same final loader
+   state and cache, and the same answers (errors embedded by [lift_ans]). *)
+Theorem C13_no_failure_is_plain_model : forall runs fs,
+  match history true (f_s fs) runs, historyF fs (map no_fail_run runs) with
+  | Ok (s, outs), Ok (fs', fouts) =>
+      f_s fs' = s /\
+      map (fun o => map fst (fo_answers o)) fouts = map (fun o => map (@lift_ans drate) (fst o)) outs
+  | Rej r, Rej r' => r = r'
+  | Panic p, Panic p' => p = p'
+  | _, _ => False
+  end.
+Proof. exact RatesFailProps.no_fail_history. Qed.
+Check C13_no_failure_is_plain_model : forall runs fs,
+  match history true (f_s fs) runs, historyF fs (map no_fail_run runs) with
+  | Ok (s, outs), Ok (fs', fouts) =>
+      f_s fs' = s /\
+      map (fun o => map fst (fo_answers o)) fouts = map (fun o => map (@lift_ans drate) (fst o)) outs
+  | Rej r, Rej r' => r = r'
+  | Panic p, Panic p' => p = p'
+  | _, _ => False
+  end.
+Print Assumptions C13_no_failure_is_plain_model.
